@@ -2,6 +2,8 @@
 import random
 
 from checks import cp_common as C
+from checks import cp_round2 as R
+from oracles import cp_sem
 from vf.core import use_repo
 from vf.pool import pmap
 
@@ -61,21 +63,152 @@ def run(ctx):
         if "dfs" in cl and "sat" in cl and cl["dfs"] != cl["sat"]:
             ctx.violation("C05/Model.solve/ensures:back-ends-agree-on-satisfiability", {"model": key}, f"dfs says {cl['dfs']}, sat says {cl['sat']}")
     ctx.count(n, nontriv, samples or [cases[0]])
-    ctx.scope("CP models by family (x solver x solution_limit x hints)", **fam)
+    ctx.scope("small scope: CP models by family (x solver x solution_limit x hints), judged by brute force", **fam)
     ctx.notes["explicit_rejections"] = rejected
-    ctx.rule = ("models built through the public constructors/operators from an independent description: every expression template of "
+    large(ctx)
+    history(ctx)
+    ctx.rule = ("(1) small scope: models built through the public constructors/operators from an independent description: every expression template of "
                 "cp_common.rel_templates over 1..3 variables and several domain boxes, every global constraint, pairs of constraints; "
-                "x solver in {auto,dfs,sat} x solution_limit in {1,50} x hints. non-trivial = constraint set excludes at least one point of a box with >= 2 points; "
-                "distinct = different (model, solver, limit, hints)")
+                "x solver in {auto,dfs,sat} x solution_limit in {1,50} x hints; non-trivial = constraint set excludes at least one point of a box with >= 2 points. "
+                "(2) size ladder (cp_round2.gen_large): structured models with 10..1000+ variables (all_different shapes, circuits, cumulative / no_overlap with many tasks, "
+                "long sums and linear relations, block-structured, latin squares, queens, chains, cycles, pigeonhole, enumerations) x solver x {no hints, half of a planted "
+                "solution as hints, complete probe assignments as hints}; returned assignments are checked directly, INFEASIBLE against the planted solution / a probe that "
+                "passes the direct check; non-trivial = at least one probe of the model fails the direct check or the model carries an infeasibility certificate. "
+                "(3) history mode (cp_round2.gen_histories): sessions on ONE Model object (int_var/add/solve interleaved, same call repeated, one hints dict reused), every solve "
+                "judged by brute force on the model as it is at that call, against a freshly built model and (last call) a fresh process; non-trivial = solution set smaller than the box. "
+                "distinct = different (model or session prefix, solver, limit, hints)")
     ctx.assumptions += ["oracle: brute-force enumeration of the domain box with the reference semantics of oracles/cp_sem.py (DESIGN 7 C05)",
                         "an explicit exception (ValueError/TypeError/NotImplementedError) for a shape the solver does not support counts as 'rejected', not as a violation",
                         "anonymous (unnamed) variables are not generated",
-                        "INFEASIBLE under hints is judged against assignments that agree with the (in-domain) hints: hints are hard restrictions"]
+                        "INFEASIBLE under hints is judged against assignments that agree with the (in-domain) hints: hints are hard restrictions",
+                        "size ladder: a solve that exceeds its CPU budget, or ends with MAX_ITER, is counted (large_timeouts) and not judged; INFEASIBLE is only judged when a witness is known",
+                        "history mode: 'same answer as a freshly built model' compares the feasibility claim and, when both enumerations stopped before solution_limit, the solution sets"]
+    ctx.trusted += ["oracles/cp_sem.py (reference semantics, direct check `violated`, Kuhn matching for all_different certificates)"]
+
+
+def _digest(x):
+    import hashlib, json
+    return hashlib.sha1(json.dumps(x, sort_keys=True).encode()).hexdigest()[:12]
+
+
+def large(ctx):
+    models = R.gen_large(ctx.seed, ctx.quick, "C05")
+    cases = R.c05_cases(models, ctx.seed, ctx.quick)
+    for c in cases:
+        # CPU budget per solve; the DFS solver (weak propagation) thrashes on some models: those runs are counted, not judged
+        uses_dfs = c["solver"] == "dfs" or (c["solver"] == "auto" and {k[0] for k in c["desc"]["constraints"]} <= {"rel", "all_different"})
+        c["cpu_s"] = (8 if uses_dfs else 15) if ctx.quick else (25 if uses_dfs else 240)
+    cases.sort(key=lambda c: -(c["size"] if not c.get("hints") else 0))  # the long solves first
+    res = pmap(R.eval_c05_large_one, cases, chunksize=1)
+    fam, nontriv, samples, claims = {}, set(), [], {}
+    n = timeouts = rejected = 0
+    timed_out = {}
+    bad_probe = {}
+    for d in models:
+        bad_probe[_digest(d["desc"])] = bool(d.get("cert")) or any(cp_sem.violated(d["desc"], a) for a in d["probes"])
+    per_ob = {}
+    for c, (viol, info) in zip(cases, res):
+        if "skipped" in info:
+            continue
+        if "timeout" in info:
+            timeouts += 1
+            timed_out[f"{c['family']}[{c['solver']}]"] = timed_out.get(f"{c['family']}[{c['solver']}]", 0) + 1
+            continue
+        n += 1
+        if "rejected" in info:
+            rejected += 1
+        key = f"{c['family']}"
+        fam.setdefault(key, set()).add(c["size"])
+        dk = _digest(c["desc"])
+        ck = (dk, c["solver"], c["solution_limit"], _digest(c["hints"]))
+        if bad_probe.get(dk):
+            nontriv.add(repr(ck))
+        if info.get("feasible_claim") is not None and c["solution_limit"] == 1:
+            claims.setdefault((dk, _digest(c["hints"])), {})[c["solver"]] = (info["feasible_claim"], c)
+        if "oracle_conflict" in info:
+            ctx.defects.append(f"C05 size ladder {c['family']} n={c['size']}: {info['oracle_conflict']}")
+        if len(samples) < 4 and n % 397 == 0:
+            samples.append({"family": c["family"], "size": c["size"], "solver": c["solver"], "hints": "probe" if c.get("probe") else bool(c["hints"]), "status": info.get("status")})
+        for ob, detail in viol:
+            per_ob.setdefault(ob, []).append((c["size"], len(c["desc"]["vars"]), c, detail))
+    for ob, lst in per_ob.items():
+        lst.sort(key=lambda t: t[:2])
+        for _, _, c, detail in lst[:3]:
+            ctx.violation(ob + "[size-ladder]", {"kind": "large", **{k: c.get(k) for k in ("desc", "solver", "solution_limit", "hints", "planted", "cert", "probe", "family", "size")}},
+                          f"{c['family']} n={c['size']}: {detail}" + (f" ({len(lst)} cases of this obligation)" if len(lst) > 1 else ""))
+    for (dk, hk), cl in claims.items():
+        if "dfs" in cl and "sat" in cl and cl["dfs"][0] != cl["sat"][0]:
+            c = cl["sat"][1]
+            ctx.violation("C05/Model.solve/ensures:back-ends-agree-on-satisfiability[size-ladder]",
+                          {"kind": "agree", **{k: c.get(k) for k in ("desc", "hints", "family", "size")}}, f"{c['family']} n={c['size']}: dfs says {cl['dfs'][0]}, sat says {cl['sat'][0]}")
+    ctx.count(n, nontriv, samples)
+    ctx.scope("size ladder: structured models beyond brute force, certifying oracle (planted solution / direct check / matching / block structure)",
+              models=len(models), max_variables=max(len(d["desc"]["vars"]) for d in models), **{k: sorted(v) for k, v in fam.items()})
+    ctx.notes["large_timeouts"] = timeouts
+    ctx.notes["large_timeouts_by_family"] = timed_out
+    ctx.notes["large_rejections"] = rejected
+
+
+def history(ctx):
+    scns = R.gen_histories(ctx.seed, ctx.quick, 1200 if ctx.quick else 20000)
+    chunks = [scns[i:i + 20] for i in range(0, len(scns), 20)]
+    res = pmap(R.eval_c05_history_chunk, chunks, chunksize=1)
+    n = 0
+    nontriv, samples = set(), []
+    per_ob = {}
+    kinds = {"solves": 0, "sessions": len(scns), "feasible": 0, "infeasible": 0, "after_int_var_following_a_solve": 0}
+    for out, errs in res:
+        for e in errs:
+            ctx.defects.append(f"C05 history: fresh-process comparison failed: {e}")
+        for scn, viol, infos in out:
+            for i in infos:
+                if "n_ref" not in i:
+                    continue
+                n += 1
+                kinds["solves"] += 1
+                kinds["feasible" if i["n_ref"] else "infeasible"] += 1
+                st = scn["steps"]
+                if any(s[0] == "var" and any(t[0] == "solve" for t in st[:k]) for k, s in enumerate(st[:i["step"]])):
+                    kinds["after_int_var_following_a_solve"] += 1
+                if i["n_ref"] < i["box"] and i["box"] >= 2:
+                    nontriv.add(repr(("h", scn["id"], i["step"])))
+            if len(samples) < 2 and scn["id"] % 401 == 7:
+                samples.append({"history": scn["steps"]})
+            seen = set()
+            for ob, detail, step in viol:
+                if ob in seen:
+                    continue
+                seen.add(ob)
+                per_ob.setdefault(ob, []).append((step, scn, detail))
+    for ob, lst in per_ob.items():
+        lst.sort(key=lambda t: t[0])
+        for step, scn, detail in lst[:3]:
+            ctx.violation(ob, {"kind": "history", "steps": scn["steps"][:step + 1], "id": scn["id"]}, detail + (f" ({len(lst)} sessions hit this obligation)" if len(lst) > 1 else ""))
+    ctx.count(n, nontriv, samples)
+    ctx.scope("history mode: sessions on one Model object (solve, int_var/add, solve again ...), brute force at every solve + freshly built model + fresh process", **kinds)
 
 
 def replay(rec):
     use_repo()
     c = rec["case"]
+    if not isinstance(c, dict):
+        return R.replay_caseless(rec, "C05")
+    kind = c.get("kind")
+    if kind == "large":
+        v, info = R.eval_c05_large(c, cpu_s=600)
+        print("replay:", v or "no violation", info)
+        return 1 if v else 0
+    if kind == "history":
+        v, infos = R.eval_c05_history({"steps": c["steps"], "id": c.get("id", 0)})
+        print("replay:", [(ob, d) for ob, d, _ in v] or "no violation", infos[-1:] )
+        return 1 if v else 0
+    if kind == "agree":
+        cl = {}
+        for solver in ("dfs", "sat"):
+            _, info = R.eval_c05_large({**c, "solver": solver, "solution_limit": 1, "planted": None}, cpu_s=600)
+            cl[solver] = info.get("feasible_claim")
+        print("replay: feasibility claims", cl)
+        return 1 if cl["dfs"] != cl["sat"] and None not in cl.values() else 0
     if "desc" not in c:
         print("agreement violation: re-run the check")
         return 1
